@@ -179,6 +179,20 @@ theorem segmentation_instances {A : Type} :
     Segmentation (singletons (A := A)) ∧ Segmentation (oneCluster (A := A)) :=
   ⟨singletons_seg, oneCluster_seg⟩
 
+/-- The ideal editor over merging graphemes with the segmentation that never merges *is* the grapheme
+editor `apply` of the theorems above: on a text of single-atom graphemes, with single-atom graphemes
+typed, re-segmentation changes nothing (it only clamps the cursor into the text, where the grapheme
+editor's cursor already is when it started there). -/
+theorem clustered_editor_merge_free_instance {A : Type} (isWord : List A → Bool) (s : Ed (List A)) (op : Op (List A))
+    (hs : AllSingle s.text) (hop : OpSingle op) :
+    applyC singletons isWord s op =
+      ⟨(apply isWord s op).text, min (apply isWord s op).cursor (apply isWord s op).text.length⟩ ∧
+    AllSingle (apply isWord s op).text :=
+  ⟨applyC_singletons isWord s op hs hop, apply_allSingle isWord s op hs hop⟩
+
+/-- Non-vacuity: "ab" with the cursor at 1, typing "c". -/
+example : applyC singletons (fun _ => true) ⟨[[0], [1]], 1⟩ (.insert [[2]]) = (⟨[[0], [2], [1]], 2⟩ : Ed (List Nat)) := by decide
+
 /-- `textfield_refines` over merging graphemes (one step): from a state with `n` = grapheme count and
 the cursor within the text, every operation of the exported API keeps that and is exactly the ideal
 operation followed by re-segmentation: the widget holds the same text, segmented the same way, the
